@@ -574,6 +574,8 @@ def nondefault_params(item, diff_ops=None):
                     out.append(f"{nd['op']}.{an}={av}".replace(" ", ""))
     if item.get("opset", 18) != 18:
         out.append(f"opset={item['opset']}")
+    if item.get("api", "optimize") not in ("optimize",):
+        out.append(f"api={item['api']}")
     for k, v in sorted((item.get("opts") or {}).items()):
         out.append(f"{k}={v}")
     if item.get("entry", "proto") != "proto":
@@ -711,10 +713,16 @@ def root_cause_tag(item, comp, dsig):
     Only facts of the (minimised) case are used; returns None when no tag applies."""
     if "steps" not in item or not dsig:
         return None
+    if str(comp) == "rule:CastIdentity" and item.get("wrap", ["none"])[0] == "func":
+        # Cast<to=@attr> inside a function body that is not inlined (inline=False, or rewrite() alone)
+        return "Cast=>Identity|ref-attribute-in-function"
     rem, _, add = dsig.partition("=>")
     rem, add = set(rem.split(",")), set(add.split(","))
     if not str(comp).startswith(("fold", "pipeline")):
         return None
+    if item.get("opset", 18) < 18 and (rem & {"SplitToSequence", "ConcatFromSequence"}) and (add & {"Split", "Unsqueeze", "Squeeze"}):
+        # Split(split input / num_outputs), Unsqueeze/Squeeze(axes input) emitted into a model whose opset predates them
+        return "sequence-evaluators|emit-newer-opset-node-form"
     for st in item["steps"]:
         c = mz.BY_ID[st["cfg"]]
         if c.op == "SplitToSequence" and "SplitToSequence" in rem:
